@@ -32,7 +32,7 @@ def num_text(v, dtype, style):
 def value_text(val, dtype, shape, style):
     if dtype == "str":
         s = "".join(val)
-        return [s, f'"{s}"', f"'{s}'"][style % 3]
+        return [s, f'"{s}"', f"'{s}'"][style % 3 if s else 1 + style % 2]      # the empty string needs quotes
     if dtype == "bool":
         return "true" if val else "false"
     if shape:
